@@ -11,6 +11,9 @@
 (*   MC_Parser_quick4.cfg / thorough4.cfg  all blocks of <= 2 / <= 3 lines over  *)
 (*                           the separator alphabet (free text holding non-'\n'  *)
 (*                           line-separator characters)                          *)
+(*   MC_Parser_quick5.cfg / thorough5.cfg  two ParseString calls on one object:  *)
+(*                           all pairs of blocks with <= 3 / <= 4 lines together *)
+(*                           over the re-use alphabet                            *)
 (*   MC_Parser_asfound.cfg   quick instance with the defect switched on          *)
 EXTENDS Parser
 
@@ -126,6 +129,21 @@ MC_FormsSep == {
     Marker,
     Blank }
 
+(* re-use alphabet (quick5 / thorough5: two ParseString calls on one parser object, block B  *)
+(* after block A; all pairs of blocks with at most MaxLines lines together): lines that put   *)
+(* something into the object that a later block may lack - initial conditions, MaxTime,       *)
+(* Err_Tolerance, the section marker, a user time axis, a report - and lines re-using a name  *)
+MC_FormsReuse == {
+    F("ic", "x", "3", "none", "one"),
+    F("ic", "z", "2.5", "plain", "tight"),
+    F("maxtime", "MaxTime", "3", "none", "tight"),
+    F("errtol", "Err_Tolerance", "1e-4", "none", "one"),
+    F("eq", "x", "y+1", "none", "one"),
+    F("lag1", "z", "x", "none", "one"),
+    F("usert", "t", "2*k", "none", "one"),
+    F("noeq", "", "x+y", "none", "one"),
+    Marker }
+
 (* middle alphabet (thorough2): the reduced one plus second spellings *)
 MC_FormsMiddle == MC_FormsReduced \cup MC_FormsTime \cup {
     F("eq", "x", "y+1", "sepeq", "one"),
@@ -151,6 +169,7 @@ MC_FormsMiddle == MC_FormsReduced \cup MC_FormsTime \cup {
 
 (* every maximal behaviour (ParseString has returned) is printed once for the driver; *)
 (* a line is coded kind|v|r|cc|sp, lines are separated by ';'                          *)
+(* blocks of earlier ParseString calls on the same object are separated by '//'               *)
 Code(f) == f.kind \o "|" \o f.v \o "|" \o f.r \o "|" \o f.cc \o "|" \o f.sp
 RECURSIVE CodeSeq(_)
 CodeSeq(h) == IF h = << >> THEN ""
@@ -160,5 +179,7 @@ CodeSeq(h) == IF h = << >> THEN ""
 (* (TLC's pretty-printer may wrap the tuple over two lines; harness/checks/c14.py reads  *)
 (* the BEH tuples from the raw output with a multi-line pattern)                         *)
 Terminal == done
-Emit == Terminal => PrintT(<< "BEH", CodeSeq(hist) >>)
+RECURSIVE CodeBlocks(_)
+CodeBlocks(bs) == IF bs = << >> THEN "" ELSE CodeSeq(Head(bs)) \o "//" \o CodeBlocks(Tail(bs))
+Emit == Terminal => PrintT(<< "BEH", CodeBlocks(blocks) \o CodeSeq(hist) >>)
 =============================================================================
